@@ -676,6 +676,36 @@ def validation_contracts(col, seed):
     col.check("solve_ode_bvp:non-convergence-is-reported", limited(not_converged))
 
 
+def integer_mesh_contracts(col, seed):
+    """'for every mesh': an index grid given as integers (np.arange(n), the natural argument of the b-scaled maps) is the same mesh as its
+    float copy - with and without a transform the two solutions agree."""
+    g = rng(seed, "C15-integer-mesh")
+    n = 7
+    x_int = np.arange(n)
+    tfs = {"direct": None, "ExpRTransform": rt.ExpRTransform(1.5, 6.5, b=n - 1), "LinearInfiniteRTransform": rt.LinearInfiniteRTransform(0.5, 7.3, b=n - 1),
+           "PowerRTransform": rt.PowerRTransform(1.2, 9.7, b=n - 1)}
+    c0, c1 = float(g.uniform(-2.0, -0.5)), float(g.uniform(0.2, 0.8))
+    fx = lambda x: np.sin(x) + 0.3 * x          # noqa: E731
+    bd = [(0, 0, float(g.uniform(0.1, 0.6))), (1, 0, float(g.uniform(-0.5, -0.1)))]
+    xs = np.linspace(0.0, n - 1.0, 9)
+    for tname, tf in tfs.items():
+        def chk(tf=tf):
+            keep = x_int.copy()
+            args = ([c0, c1, 1.0], [tuple(c) for c in bd])
+            kw = {"tol": 1e-8, "max_nodes": 20000, "initial_guess_y": np.zeros((2, n)), "no_derivatives": True}
+            si = solve_ode_bvp(x_int, fx, args[0], args[1], tf, **kw)
+            sf = solve_ode_bvp(x_int.astype(float), fx, args[0], args[1], tf, **kw)
+            a_, b_ = np.asarray(si(xs), dtype=float), np.asarray(sf(xs), dtype=float)
+            a_, b_ = (a_[0] if a_.ndim == 2 else a_), (b_[0] if b_.ndim == 2 else b_)
+            if not np.array_equal(x_int, keep) or x_int.dtype != keep.dtype:
+                return False, "the integer mesh of the caller was modified"
+            if not np.allclose(a_, b_, rtol=1e-6, atol=1e-7):
+                return False, f"integer and float copies of the same mesh give different solutions (max difference {float(np.max(np.abs(a_ - b_))):.3e})"
+            return True, None
+        col.check(f"solve_ode_bvp:integer-mesh:{tname}", limited(chk), inputs={"kind": "integer-mesh", "seed": int(seed), "transform": tname},
+                  sample={"transform": tname, "mesh": "np.arange(7)"})
+
+
 def rhs_alias_contracts(col, seed):
     """The right-hand side may be any function of x: `lambda x: x` (returns its argument), a constant written as a Python scalar,
     an integer array, an array the caller keeps (cache).  q y'' + y = p(x) has the solution p(x) + sin(w (x - a)), w = 1/sqrt(q), for p in {x, c}."""
@@ -1009,6 +1039,7 @@ def run(tier, seed, *rest):
     helper_contracts(col, seed, reps=1 if tier == "quick" else 4)
     validation_contracts(col, seed)
     rhs_alias_contracts(col, seed)
+    integer_mesh_contracts(col, seed)
     public_family(col, seed, tier)
     if tier != "quick":
         public_family(col, seed + 7919, tier)        # a second, independent draw of every problem and transform parameter
@@ -1043,6 +1074,7 @@ def replay(req):
         low = name.lower()
         only = "bvp" if ("bvp" in low or "/bc" in low) else ("ivp" if ("ivp" in low or what == "ivp") else None)
         rhs_alias_contracts(col, seed)
+        integer_mesh_contracts(col, seed)
         if not new():
             public_family(col, seed, "quick", only=only)
     f = _first_failure(col, prefer)
@@ -1064,6 +1096,8 @@ def replay_case(case):
         bvp_case(col, seed, inp["order"], inp["transform"], inp["cond_index"], inp["variant"])
     elif kind == "rhs-alias":
         rhs_alias_contracts(col, seed)
+    elif kind == "integer-mesh":
+        integer_mesh_contracts(col, seed)
     elif kind == "helpers":
         helper_contracts(col, seed, reps=int(inp.get("rep", 0)) + 1)
     else:
